@@ -67,6 +67,7 @@ def main(run):
         sc = rnd.choice([1.0, 1.0, 2.0 ** -40, 2.0 ** -60, 2.0 ** 40]) if typ in ("float", "np64", "np32", "Q") else 1.0
         base = ExponentialSmoothingTracker(alpha) if dyn else WelfordTracker()
         mt, twin = MultiValueTracker(base), MultiValueTracker(base)
+        base.update(conv(typ, 17, sc) if typ != "int" else 17)      # the user keeps using the base tracker object: must not matter
         ref = RefMulti(dyn, Q(alpha) if dyn else None)
         n = rnd.randrange(1, 61 if run.tier == "thorough" else 31)
         seen_keys = []
